@@ -17,7 +17,9 @@ def sh(cmd, **kw):
     return subprocess.run(cmd, shell=True, capture_output=True, text=True, **kw)
 
 def suite():
-    r = sh(f"cd {wt} && /venv/bin/python -m pytest -q -p no:cacheprovider --timeout=900 --continue-on-collection-errors 2>&1 | tail -1")
+    # the editable install points at /repo/src, so the worktree's sources have to be put first explicitly; tests/cascade cannot be
+    # collected in the baseline (and are not part of the 133 stable tests), so the same 133 tests are tests/earthkit_workflows
+    r = sh(f"cd {wt} && PYTHONPATH={wt}/src /venv/bin/python -m pytest -q -p no:cacheprovider --timeout=900 --continue-on-collection-errors tests/earthkit_workflows 2>&1 | tail -1")
     return r.stdout.strip()
 
 def demo(d):
